@@ -562,6 +562,14 @@ func (h *pkH) exec(line string) string {
 			r = fx.ibcTimeoutCls(pkt, atou(m["ph"]), h.relayer)
 		}
 		return r
+	case "timeoutclose":
+		// MsgTimeoutOnClose for a packet the hub sent (the counterparty's channel end is closed)
+		ci := idxTok(f[1])
+		pkt, ok := h.sentPkts[[2]uint64{uint64(ci), atou(m["seq"])}]
+		if !ok {
+			return "replay"
+		}
+		return fx.ibcTimeoutOnCloseCls(pkt, h.relayer)
 	case "fin":
 		_, a := h.addr(f[1])
 		src := m["src"]
@@ -817,6 +825,36 @@ func (f *Fix) ibcTimeoutCls(pkt channeltypes.Packet, ph uint64, relayer sdk.AccA
 		ctx = f.proofCtx(ctx, commontypes.RollappPacket_ON_TIMEOUT, pkt, ph)
 		return f.App.TransferStack.OnTimeoutPacket(ctx, pkt, relayer)
 	})
+	return pkClass(err)
+}
+
+// ibcTimeoutOnCloseCls stands for ibc-go core's MsgTimeoutOnClose handler (keeper.TimeoutOnClose + the
+// callback OnTimeoutPacket; a callback error fails the message).  The context comes from the real
+// IBCProofHeightDecorator over a transaction holding the MsgTimeoutOnClose (and a MsgRecvPacket for the same
+// port / channel / sequence: its proof height must not be picked up).
+func (f *Fix) ibcTimeoutOnCloseCls(pkt channeltypes.Packet, relayer sdk.AccAddress) string {
+	ck := f.App.IBCKeeper.ChannelKeeper
+	if len(ck.GetPacketCommitment(f.Ctx, pkt.SourcePort, pkt.SourceChannel, pkt.Sequence)) == 0 {
+		return "replay"
+	}
+	err := f.Try(func(ctx sdk.Context) error {
+		f.deleteCommitment(ctx, pkt)
+		decoy := pkt
+		decoy.DestinationPort, decoy.DestinationChannel = pkt.SourcePort, pkt.SourceChannel
+		msgs := []sdk.Msg{
+			&channeltypes.MsgRecvPacket{Packet: decoy, ProofHeight: clienttypes.NewHeight(1, 1), Signer: Actor(1).String()},
+			&channeltypes.MsgTimeoutOnClose{Packet: pkt, ProofHeight: clienttypes.NewHeight(1, 1), Signer: Actor(1).String()},
+		}
+		out, err := commontypes.NewIBCProofHeightDecorator().AnteHandle(ctx, pkTx{msgs}, false,
+			func(c sdk.Context, _ sdk.Tx, _ bool) (sdk.Context, error) { return c, nil })
+		if err != nil {
+			return err
+		}
+		return f.App.TransferStack.OnTimeoutPacket(out, pkt, relayer)
+	})
+	if err != nil && errors.Is(err, gerrc.ErrInternal) && strings.Contains(err.Error(), "get proof height from context") {
+		return "internal"
+	}
 	return pkClass(err)
 }
 
